@@ -90,7 +90,7 @@ PROPS['C19'] = {
 TIM = 'cloud::__verif_timing::'
 NODE_PEERS_DRV = {'file': 'native/node_peers.rs', 'attach': 'src/tests/common.rs', 'test': 'peers_time_out_when_silent_and_never_when_healthy'}
 PEERS_TRUSTED = [
-    'unit peers: the claim table is an opaque environment observed through announced(peer) / routes_to(peer); ClaimTable::set_claims / remove_claims carry the contracts proved for them in unit table, restated over these observers',
+    'unit peers: the claim table is an opaque type observed through announces(peer, r) / routes_to(peer) (defined in unit table); the contracts it assumes for ClaimTable::set_claims / remove_claims are the clause files units/iface/table_*.ensures, and unit table proves exactly these clauses from the contracts of the real functions (lemma_set_claims_iface, lemma_remove_claims_iface) - the only unchecked step is that the lemma hypotheses are the proved postconditions (same unit, read side by side)',
     'unit peers: GenericCloud::connect_to_peers / connect_sock are environment functions assumed not to touch the peer map or the table; the clock does not advance within one operation',
     'unit peers R5 pinned statements: `self.peers.get_mut(&addr)`, `self.peers.remove(&addr)` (exact map contracts for SocketAddr keys), `peer.addrs.contains(addr)`, and the loop over the peer map in housekeep that collects expired addresses (`for (&addr, data) in &self.peers { if data.timeout < now { del.push(addr); } }`: ref patterns / HashMap iteration are not typed by this Verus); R4: GenericCloud pruned to config, peers, table',
 ]
